@@ -185,6 +185,11 @@ def run_c01(pid, tier):
             for back in range(0, len(ch.encode()) + 1):
                 run = "a" * (mark - back) + ch + "b" * 7
                 extra.append(dict(canon=("@use super::wrap_html;\n@(" + DECL + ")\n|" + run).encode(), perts=[], expect=[("|" + run).encode()] * 3, items=None))
+    # long ASCII runs in which every offset holds, in turn, a blank, a tab, a line break, a quote, a backslash (anything a literal
+    # continued over several source lines, or escaped piecewise, would treat specially)
+    for unit in ["  ", " \t", "x \n", " \"", "\\ ", "a b", "\r\n "]:
+        run = unit * (9000 // len(unit))
+        extra.append(dict(canon=("@use super::wrap_html;\n@(" + DECL + ")\n|" + run + "|").encode(), perts=[], expect=[("|" + run + "|").encode()] * 3, items=None))
     run = ("åäö " * 13 + "\n") * 420
     extra.append(dict(canon=("@use super::wrap_html;\n@(" + DECL + ")\n|" + run).encode(), perts=[], expect=[("|" + run).encode()] * 3, items=None))
     # comment bodies over {*, @, space, x, newline} exhaustively (to length 4 quick / 6 thorough), between two text markers
@@ -232,8 +237,8 @@ def run_c14(pid, tier):
 
 # ---------------------------------------------------------------------------------------- C04
 CALLEE_MODS = {"wrap_html": [], "one_html": [], "zero_html": [], "three_html": [], "mid_html": [], "chain_html": [],
-               "inner_html": ["sub"], "leaf_html": ["sub", "deep"], "sib_html": ["sub"], "viaroot_html": ["sub"]}
-CALLEE_BLOCKS = {"wrap_html": 2, "one_html": 1, "zero_html": 0, "three_html": 3, "mid_html": 1, "chain_html": 1, "inner_html": 1, "leaf_html": 1, "sib_html": 1, "viaroot_html": 1}
+               "inner_html": ["sub"], "leaf_html": ["sub", "deep"], "sib_html": ["sub"], "viaroot_html": ["sub"], "twice_html": []}
+CALLEE_BLOCKS = {"wrap_html": 2, "one_html": 1, "zero_html": 0, "three_html": 3, "mid_html": 1, "chain_html": 1, "inner_html": 1, "leaf_html": 1, "sib_html": 1, "viaroot_html": 1, "twice_html": 1}
 def use_path(from_dir, name):
     d = [x for x in from_dir.split("/") if x]
     return "super::" * (len(d) + 1) + "".join(m + "::" for m in CALLEE_MODS[name]) + name
@@ -248,6 +253,8 @@ C04_FILES = {
     # a nested template that names a root template by its absolute path, next to a sibling with the same name and signature
     "t/sub/viaroot.rs.html": "@use crate::templates::one_html;\n@(t: impl ToHtml, c: Content)\n@:one_html(t, {r@:c()})",
     "t/sub/one.rs.html": "@(t: impl ToHtml, c: Content)\n{the other one @t:@:c()}",
+    # a by-value parameter that is not Copy, used inside a block argument and again after the call
+    "t/twice.rs.html": "@use super::one_html;\n@(t: impl ToHtml, c: Content)\n@:one_html(1, {[@t]@:c()})(@t)",
     "t/chain.rs.html": "@use super::sub::inner_html;\n@use super::sub::deep::leaf_html;\n@(t: impl ToHtml, c: Content)\n@:inner_html(t, {@:leaf_html(\"L\", {@:c()})})",
 }
 def c04_bodies():
@@ -261,12 +268,20 @@ def c04_bodies():
     chain = lambda v, t: inner(v, [lambda: leaf("L", [t[0]])])
     sib = lambda v, t: inner(v, [lambda: "s" + leaf("1", [t[0]])])
     viaroot = lambda v, t: one(v, [lambda: "r" + t[0]()])
-    return {"viaroot_html": viaroot, "wrap_html": wrap, "one_html": one, "zero_html": zero, "three_html": three, "mid_html": mid, "inner_html": inner, "leaf_html": leaf, "chain_html": chain, "sib_html": sib}
+    twice = lambda v, t: one("1", [lambda: "[" + v + "]" + t[0]()]) + "(" + v + ")"
+    return {"viaroot_html": viaroot, "twice_html": twice, "wrap_html": wrap, "one_html": one, "zero_html": zero, "three_html": three, "mid_html": mid, "inner_html": inner, "leaf_html": leaf, "chain_html": chain, "sib_html": sib}
 def run_c04(pid, tier):
     n = 200 if tier == "quick" else 2000
     mk = lambda rng: Gen(rng, kinds=["text", "expr", "call", "call", "call", "if", "for", "cmt", "esc"], depth=3 if tier == "quick" else 4, max_items=3, callees=CALLEE_BLOCKS)
     uses_for = lambda d: tuple(use_path(d, c) for c in sorted(CALLEE_BLOCKS)) + ("crate::P",)
-    return suite(pid, tier, mk, n, extra_files={p: c.encode() for p, c in C04_FILES.items()}, callee_bodies=c04_bodies(), dirs=["", "", "sub/", "sub/deep/", "other/", "only/dirs/here/"], uses_for=uses_for,
+    # block arguments holding the same node twice in a row: repeated escapes, the same call twice, the same expression twice
+    from tmpl_gen import ARGSETS as _AS
+    hd = "@use super::wrap_html;\n@use super::zero_html;\n@(" + DECL + ")\n"
+    extra = [dict(canon=(hd + "|@:wrap_html(n, {@}@}@{@{@@@@}, {@:zero_html(1)@:zero_html(1)@n@n})|").encode(), perts=[], items=None,
+                  expect=[("|[%d|}}{{@@|<1><1>%d%d]|" % (a["n"], a["n"], a["n"])).encode() for a in _AS]),
+             dict(canon=(hd + "|@:wrap_html(n, {@:zero_html(n)@:zero_html(n)}, {@@@@@@@}@}@}})|").encode(), perts=[], items=None,
+                  expect=[("|[%d|<%d><%d>|@@@}}}]|" % (a["n"], a["n"], a["n"])).encode() for a in _AS])]
+    return suite(pid, tier, mk, n, extra_cases=extra, extra_files={p: c.encode() for p, c in C04_FILES.items()}, callee_bodies=c04_bodies(), dirs=["", "", "sub/", "sub/deep/", "other/", "only/dirs/here/"], uses_for=uses_for,
                  max_src=1600 if tier == "quick" else 5000,
                  rule="acyclic call graphs: callers in the root, a child, a grandchild and an unrelated sibling module call templates with 0-3 Content parameters located in the root, child and grandchild modules, "
                       "directly and through intermediate templates that forward their block ({@:c()}), chains of two intermediates across modules; arguments mix Rust expressions and blocks that are empty, "
@@ -419,6 +434,12 @@ def run_c05(pid, tier):
     addcase("|@n.", ["|%d." % a["n"] for a in ARGSETS], "doc")
     addcase("|@(n).len()", ["|%d.len()" % a["n"] for a in ARGSETS], "doc")
     addcase("|@s.len()", ["|%d" % len(a["s"].encode()) for a in ARGSETS], "doc")
+    # lone ticks inside a group (a lifetime, not a char literal) with further ticks later in the template (char literals are not part of the documented grammar: one holding a delimiter is not expected to hide it)
+    addcase("|@(xs.iter().map(|x: &'_ u32| *x).sum::<u32>()), isn't it", ["|%d, isn't it" % sum(a["xs"]) for a in ARGSETS], "tick")
+    addcase("|@(n + 'x'.len_utf8()) 'q' (", ["|%d 'q' (" % (a["n"] + 1) for a in ARGSETS], "tick")
+    addcase("|@(n + { let q: &'static str = \"ab\"; q.len() })' )", ["|%d' )" % (a["n"] + 2) for a in ARGSETS], "tick")
+    # a bare string literal is an expression like any other: rendered through ToHtml, once
+    addcase("|@\"we're <open>\" @\"R&D\".", ["|we&#39;re &lt;open&gt; R&amp;D."] * len(ARGSETS), "doc")
     addcase("|@for _i in 0..3 {@bump(),}", ["|%s" % "".join("%d," % (3 * k + j + 1) for j in range(3)) for k in range(3)], "once")
     # malformed stream: model/implementation comparison only (no expectation)
     bad = ["@(n", "@(n /* )", '@("\\q")', "@foo(", "@foo[(])", "@foo{", '@"abc', "@(a /", "@(a / * b)", "@a.b(c[d{e}f]g)h", "@x!y", "@x![", "@&", "@&&n", "@.5", "@n..", "@n::", "@n::<u8>()", "@(\xff)", "@s[\xe9]", "@(\"\\u{zz}\")"]
@@ -521,11 +542,14 @@ def run_c13(pid, tier):
         sep = rng.choice([", ", ",", ",\n    ", ", "])
         uses = list(USES[:4]) + rng.sample(USES[4:], rng.randint(0, 4))
         if rng.random() < 0.3: uses += [g for g in ("std::collections::*", "std::iter::*", "crate::models::*", "std::cmp::*") if g not in uses][:rng.randint(2, 3)]
+        # an imported name that ends in this template's own function name, one that begins with it, and the name itself from another module
+        if i % 8 == 0: uses += ["crate::own::base_d%d_html" % i, "crate::own::d%d_html_v2" % i, "crate::own::d%d_html as d%d_alias" % (i, i)]
         rng.shuffle(uses)
         lifetimes = rng.choice(["<'a>", "<'a, 'b>", "<'a,'b>", "< 'a>"]) if need_a or rng.random() < 0.2 else ""
         open_ws = rng.choice(["", " ", "\n  "]); close_ws = rng.choice(["", " ", "\n"])
         src = "".join("@use %s;\n" % u for u in uses) + "@" + lifetimes + "(" + open_ws + sep.join(params) + close_ws + ")\n" + body
         cases.append(dict(canon=src.encode(), perts=[], items=None, expect=[exp.encode()], args=", ".join(args), uses=uses, params=params, lifetimes=lifetimes))
+    user_rs += "pub mod own { " + " ".join("pub fn base_d%d_html() {} pub fn d%d_html_v2() {} pub fn d%d_html() {}" % (i, i, i) for i in range(0, n, 8)) + " }\n"
     # run through a local variant of the suite: one argument set per template (its own values)
     chk = Check(pid, tier)
     info = ensure_all()
